@@ -256,6 +256,11 @@ def run(plan):
             res["sched"].append(sig)
             res["steps"] += 1
             got = D.corrected_stack.detach().numpy()
+            if not np.isfinite(ref_stack).all():
+                # e.g. a sub-mask whose pixels all lie outside the aperture (zero total weight):
+                # the reference itself is undefined, nothing to compare
+                bump(res["obs"], "degenerate_reference_nonfinite")
+                continue
             if got.shape != ref_stack.shape:
                 viol("result_shape", f"{tag}: shape {got.shape} vs reference {ref_stack.shape}",
                      f"result_shape:{kern}")
@@ -315,7 +320,8 @@ def run(plan):
                          f"expected {f_.shape}", f"submask_mapping:{rc['kernel']}")
                     ok = False
                     break
-                if np.abs(r_).max() < 1e-12 or np.abs(f_).max() < 1e-12:
+                if not (np.isfinite(r_).all() and np.isfinite(f_).all()) or np.abs(
+                        r_).max() < 1e-12 or np.abs(f_).max() < 1e-12:
                     ok = False  # degenerate (all-zero) reconstruction: nothing to compare
                     break
                 a_ = float((f_ * r_).sum() / ((r_ * r_).sum() + 1e-30))
